@@ -114,6 +114,9 @@ class TensorMcmcSaemAlgorithm(
             model_state.put_population_latent_variables(
                 LatentVariableInitType.PRIOR_MODE
             )
+            # Do not keep training data nor individual latent variables in the model
+            model.reset_data_variables(model_state)
+            model_state.put_individual_latent_variables(None)
         model.state = model_state
         return state
 
